@@ -182,7 +182,8 @@ pub fn run(run: &Run) {
             );
         }
         // (a)
-        let terms = u::u_term(&f, tier);
+        let mut terms = u::u_term(&f, tier);
+        terms.extend(u::cp_name_terms(&f, tier)); // one name per identifier code point
         let mut vals: Vec<V> = terms.into_iter().map(V::term).collect();
         vals.extend(u::u_sent(&f));
         if f.name == "han" {
